@@ -206,6 +206,11 @@ def get_atom_lines_from_pdb(
                 continue
             if chains and line[21] not in chains:
                 continue
+            # hydrogens that are not kept must not take part in the
+            # bookkeeping of the termini below
+            atom = Atom(line=line)
+            if atom.element == 'H' and not keep_protons:
+                continue
             # set the Nterm residue number - nessecary because we may need to
             # identify more than one N+ group for structures with alt_conf tags
             if nterm_residue == 'next_residue' and tag == 'ATOM  ':
@@ -231,11 +236,8 @@ def get_atom_lines_from_pdb(
                     nterm_residue = 'next_residue'
                     old_residue = residue_number
             # and yield the atom
-            atom = Atom(line=line)
             atom.terminal = terminal
-            #ignore hydrogen
-            if not (atom.element == 'H' and not keep_protons):
-                yield (conformation, atom)
+            yield (conformation, atom)
             terminal = None
 
 
